@@ -43,6 +43,14 @@ LAW_MODULES = {"Laws": ("C01", "C02", "C03", "C05", "C06", "C07", "C08"),
                "Laws3": ("C09", "C10", "C11", "C12", "C13", "C14", "C15", "C19")}
 
 
+# which all-widths sweeps (gen/widthsweep.py) each property's check runs, in both tiers
+SWEEPS = {
+    "C01": ["addsub"], "C02": ["mul"], "C03": ["rem"], "C05": ["shift"], "C06": ["count"], "C07": ["cmp"],
+    "C08": ["ilog", "pow"], "C10": ["parse_print", "from_radix"], "C11": ["print_"], "C14": ["floats"],
+    "C15": ["slices"], "C16": ["mul", "print_"], "C17": ["parse_print"], "C18": ["roots"],
+}
+
+
 def env_offline():
     e = dict(os.environ)
     e["CARGO_NET_OFFLINE"] = "true"
@@ -184,7 +192,7 @@ def proof_step(pid, tier, log):
 def build_harness(binname, log, features=None, toolchain=None, nightly=False):
     bins = {}
     profiles = (("dbg", [], "debug"), ("rel", ["--profile", "rel"], "rel"))
-    if binname.startswith("widths"):
+    if binname.startswith("widths") or binname.endswith("w"):
         # all-widths sweep bins (1024 instantiations): unoptimised profiles, same debug-assertion / overflow-check split
         profiles = (("dbg", ["--profile", "w0"], "w0"), ("rel", ["--profile", "w0rel"], "w0rel"))
     for prof, flag, sub in profiles:
@@ -374,12 +382,18 @@ def main():
         extra_problems += mod.pre(ctx) or []
 
     # 3. harness
+    from gen import widthsweep as _wsweep
+    _wsweep.set_tier(tier)
+    sweeps = [] if a.replay else SWEEPS.get(pid, [])
     multi = getattr(mod, "HARNESS_BINS", None)
-    if getattr(mod, "HARNESS_BINS_SWEEP", None):
-        # all-widths sweep bins (gen/widthsweep.py), used by both tiers
-        multi = list(multi or [binname]) + [b for b in mod.HARNESS_BINS_SWEEP if b not in (multi or [])]
-        if not hasattr(mod, "ROUTE"):
-            mod.ROUTE = lambda l, _b=binname: _b
+    if sweeps or a.replay:
+        # all-widths sweep bins (gen/widthsweep.py, tools/gen_widths.py), used by both tiers: requests for a u8xN / i8xN
+        # configuration outside the standard lists are answered by them whatever the property's own routing says
+        multi = list(multi or [binname]) + [b for b in _wsweep.BINS if b not in (multi or [])]
+        inner = getattr(mod, "ROUTE", None) or (lambda l, _b=binname: _b)
+        sweep_lines = set()
+        u8cfg = re.compile(r"\S+ [ui]8x\d+ ")
+        mod.ROUTE = lambda l, _i=inner: (((l in sweep_lines) or _wsweep.is_sweep(l) or (a.replay and u8cfg.match(l + " "))) and _wsweep.sweep_bin(l)) or _i(l)
     if tier == "thorough" and getattr(mod, "HARNESS_BINS_THOROUGH", None):
         # extra (slow to build) bins used by the thorough tier only, e.g. the all-widths sweep
         multi = list(multi or [binname]) + list(mod.HARNESS_BINS_THOROUGH)
@@ -389,12 +403,15 @@ def main():
         # cross-cutting property: requests are routed to the harness bins of several vocabularies
         allbins, herr = {}, None
         for b in multi:
-            bb, e = build_harness(b, log)
+            if b in allbins:
+                continue
+            own = (b == binname)
+            bb, e = build_harness(b, log, features=getattr(mod, "FEATURES", None) if own else None, nightly=getattr(mod, "NIGHTLY", False) if own else False)
             if bb is None:
                 herr = e
                 break
             allbins[b] = bb
-        bins = None if herr else {"dbg": "multi", "rel": "multi"}
+        bins = None if herr else {m: "multi" for m in sorted(set(k for bb in allbins.values() for k in bb))}
     else:
         allbins = None
         bins, herr = build_harness(binname, log, features=getattr(mod, "FEATURES", None), nightly=getattr(mod, "NIGHTLY", False))
@@ -418,13 +435,18 @@ def main():
                         cases.append((l, "corpus"))
         ctx["line_offset"] = len(cases)
         cases += list(mod.gen(rng, tier))
+        # all-widths sweep of this property's width-sensitive operations (every N = 1..1024 of the u8-digit types)
+        srng = random.Random(seed * 7919 + int(pid[1:]))
+        for name in sweeps:
+            sw = list(_wsweep.SWEEPS[name](srng))
+            sweep_lines.update(x[0] for x in sw)
+            cases += sw
     lines = [c[0] for c in cases]
     tags = [c[1] for c in cases]
     # optional third component: the answer computed by the generator with exact Python integers (all-widths sweep).
     # Such a request is sent to the real crate first; the Lean driver (model + spec) is consulted when the crate's
     # answer differs from it (so the Lean spec judges every reported violation) and for a fixed sample of widths.
     expected = [c[2] if len(c) > 2 else None for c in cases]
-    from gen import widthsweep as _wsweep
 
     violations = []      # R not in Sp
     divergences = []     # R != Mo
@@ -449,11 +471,14 @@ def main():
                 outs = [None] * len(lines)
                 for b in allbins:
                     idx = [i for i, r in enumerate(route) if r == b]
-                    res = run_chunked(allbins[b][m], [lines[i] for i in idx])
+                    if m not in allbins[b]:
+                        res = ["skip"] * len(idx)          # e.g. no nightly build of the sweep bins
+                    else:
+                        res = run_chunked(allbins[b][m], [lines[i] for i in idx])
                     for i, o in zip(idx, res):
                         outs[i] = o
                 return [o if o is not None else "bad-op" for o in outs]
-            jobs = {m: one_mode for m in ("dbg", "rel")}
+            jobs = {m: one_mode for m in bins}
         else:
             jobs = {m: (lambda _m, _exe=exe: run_chunked(_exe, lines)) for m, exe in bins.items()}
         plain = [i for i in range(len(lines)) if expected[i] is None or _wsweep.always_driver(lines[i])]
